@@ -115,7 +115,14 @@ func VerifC14RestartTwice() {
 // the coordinator may flush (save frontier, delete journals). For every crash
 // prefix of the target's requests the real start-up recovery must resume at an
 // offset before which every unit has been committed (none skipped).
-func VerifC14Coordinator() {
+func VerifC14Coordinator() { verifC14Coordinator(0) }
+
+// VerifC14CoordinatorAfterResync: as VerifC14Coordinator, but the namespace still holds the frontier snapshot
+// of an earlier run (sequence number 1..2 at an offset before the root checkpoint): a full resynchronisation has
+// stored a newer root checkpoint, start-up takes the root override and numbers the new run's units from 1.
+func VerifC14CoordinatorAfterResync() { verifC14Coordinator(1 + verifChoose("staleSeq", 2)) }
+
+func verifC14Coordinator(staleSeq int) {
 	verifClockNs = 1700000000000000000 // fixed clock: flushes are driven by the harness, not by elapsed time
 	var offs [4]int64
 	prev := int64(100)
@@ -127,6 +134,13 @@ func VerifC14Coordinator() {
 	f := verifNewFake()
 	// fresh namespace: root checkpoint at offset 100, no frontier yet
 	f.request("hset", []interface{}{"cp", "rid1_runid", "rid1", "rid1_version", "v", "rid1_offset", "100"})
+	if staleSeq > 0 {
+		old := &checkpoint.BisyncFrontierSnapshot{Version: "v", RunID: "rid1", UnitSeq: int64(staleSeq), Offset: 50, MTime: 5}
+		verifAssert(checkpoint.SaveBisyncFrontierSnapshot(f, checkpoint.BisyncFrontierKey("cp"), old) == nil, "C14.coordinator.setup")
+		sp0, seq0, ok0, err0 := verifBisyncOutput(f, config.ReplayModeParallel).bisyncStartPoint(context.Background(), []string{"rid1"})
+		verifAssert(err0 == nil && ok0 && sp0.Offset == 100 && seq0 == 0, "C14.coordinator.root-override-not-taken")
+		verifCover(true, "coordinator.after-resync")
+	}
 	fc := newBisyncFrontierCoordinator(f, checkpoint.BisyncFrontierKey("cp"), "cp", "in", 0, 100, "rid1")
 	tag := checkpoint.BisyncSlotTag(0)
 	done := [4]bool{}
@@ -169,6 +183,9 @@ func VerifC14Coordinator() {
 	}
 	log := f.log
 	for p := 1; p <= len(log); p++ {
+		if staleSeq > 0 && p < 3 {
+			continue // (the set-up requests)
+		}
 		nf := verifStateAfter(log, p)
 		sp, seq, ok, err := verifBisyncOutput(nf, config.ReplayModeParallel).bisyncStartPoint(context.Background(), []string{"rid1"})
 		verifAssert(err == nil && ok, "C14.coordinator.restart-fails")
